@@ -419,6 +419,9 @@ def _send(comm, obj, dest, dtype):
     from .field import Field
     from .multi_field import MultiField
 
+    if dtype is np.ndarray:
+        # The sum of zero-dimensional arrays is a numpy scalar
+        obj = np.asarray(obj)
     assert isinstance(obj, dtype)
     if dtype is np.ndarray:
         shp_orig = obj.shape
